@@ -565,6 +565,29 @@ def one(F, S, b, p, s, envs):
     if any(g not in common_names() for g in generic_consts):
         # functions generic over some other constant (e.g. N of the array codecs): try every variant value
         env_list = [dict((g, v) for g in generic_consts) for v in ALL_VALUES]
+    # variants that can never take this path (one of its conditions is decided the other way by that variant's
+    # constants alone) are not obliged to discharge the site on it
+    def _const_truth(e, env):
+        if e[0] in ("cpath", "cparam", "const"):
+            v = layout.ceval(e, env) if env is not None else (e[1] if e[0] == "const" else None)
+            return None if v is None else bool(v)
+        return cond_truth(e, B0(), tyof, env)
+
+    kept = []
+    for env in env_list:
+        feasible = True
+        for (cbb, d, taken, vals) in p.conds:
+            if vals != [0]:
+                continue
+            tv = _const_truth(n(d), env)
+            if tv is not None and tv != (taken == "otherwise"):
+                feasible = False
+                break
+        if feasible:
+            kept.append(env)
+    if not kept:
+        return "infeasible-by-constants"
+    env_list = kept
     if t["t"] == "assert":
         cond = None
         msg = None
